@@ -71,9 +71,8 @@ fn class_name(c: u64) -> String {
 
 pub fn run(tier: Tier) -> i32 {
     let run = Run::new("C07", tier);
-    let n: i128 = if tier.thorough() { 20_000_000 } else { 1_500_000 };
-    let small: Vec<i128> = (-n..=n).collect();
-    run.par_for(&small, || {}, |&a, l| { for f in 0..=18u8 { case(a, f, l); } });
+    let n: i128 = if tier.thorough() { 60_000_000 } else { 1_500_000 };
+    run.par_range(-n, n, || {}, |a, l| { for f in 0..=18u8 { case(a, f, l); } });
     run.stage("complete small scope", json!({"|a|<=": n, "scales": 19}));
     let k = alpha::coeffs(2, 50, if tier.thorough() { Level::Thorough } else { Level::Mid });
     run.par_for(&k, || {}, |&a, l| { if a.abs() > n { for f in 0..=18u8 { case(a, f, l); } } });
